@@ -37,6 +37,12 @@ def run(ctx, chk):
     import ownership as O
     from props.c06 import check_blocks
     check_blocks(chk, "C13.blocks", prog, O.PathCache(prog, eff), floor=26)
+    chk.rule("C13.no-stale-block", "a block handed to the installed free is not left behind in a field of a live object (it would be "
+                                   "released or resized a second time): after freeing a block read from a heap field, the field is "
+                                   "overwritten or its owner is freed on the same path; the reallocation wrappers are inlined, so a "
+                                   "wrapper that frees its argument on failure is judged together with callers that keep the pointer")
+    from props.c06 import check_dangling
+    check_dangling(chk, "C13.no-stale-block", prog, eff, O.PathCache(prog, eff))
 
     # ---- rule ext -------------------------------------------------------
     nrefs = 0
